@@ -195,10 +195,6 @@ Theorem C01_too_few_arguments_refuted :
   fst (runM 60 w_short_args) = Ok (VList [VInt 1; VSym "x"]) /\ fst (runS 60 w_short_args) = Er EArity /\ guardb 60 w_short_args = false.
 Proof. exact too_few_arguments_refuted. Qed.
 Print Assumptions C01_too_few_arguments_refuted.
-Theorem C01_do_atom_test_refuted :
-  fst (runM 200 w_do_atom) = Er EFuel /\ fst (runS 200 w_do_atom) = Ok (VInt 5) /\ guardb 200 w_do_atom = false.
-Proof. exact do_atom_test_refuted. Qed.
-Print Assumptions C01_do_atom_test_refuted.
 Theorem C01_loop_scope_refuted :
   forallb (fun p => guardb 60 p) [w_dolist_scope; w_dotimes_scope; w_dostar_scope] = false /\
   fst (runM 60 w_dolist_scope) = Ok VNil /\ fst (runS 60 w_dolist_scope) = Ok (VInt 10) /\
@@ -207,3 +203,12 @@ Theorem C01_loop_scope_refuted :
   guardb 60 w_dolist_scope = false /\ guardb 60 w_dotimes_scope = false /\ guardb 60 w_dostar_scope = false.
 Proof. exact loop_scope_refuted. Qed.
 Print Assumptions C01_loop_scope_refuted.
+
+(* (10) Repaired defects (repo_fixes/C01-6 ...): the former witnesses, evaluated in the three modes - the model of the
+   repaired Go code, the reference evaluator and the guard run agree, i.e. the programs are now inside the guard.
+   End test of do / do* that is not a list form (t, a variable): evaluated like any other test. *)
+Theorem C01_do_atom_test_evaluated :
+  forallb (fun m => match fst (run m 60 w_do_atom), fst (run m 60 w_do_var) with
+                    | Ok (VInt 5), Ok (VInt 3) => true | _, _ => false end) [Slip; Ref; Chk] = true.
+Proof. exact do_atom_test_evaluated. Qed.
+Print Assumptions C01_do_atom_test_evaluated.
